@@ -115,6 +115,13 @@ def run_on(module, interp):
     return concs
 
 
+def axioms_of(lib):
+    """the theory the expressions run in: the library's axioms, one of them declared a second time at the end (a theory
+    assembled from several sources may repeat an axiom; every publication takes a memory slot)"""
+    ax = lib.get_axioms()
+    return list(ax) + [ax[1]] if len(ax) > 1 else list(ax)
+
+
 def build_ext(d, lib):
     k = d[0]
     if k == 'lemma2':
@@ -199,8 +206,8 @@ def product_chunk(args):
                     continue
                 try:
                     th = build_ext(d, lib)
-                    m = pyrun.module_for(th, axioms=lib.get_axioms())
-                    fac = stacks([th.conc], pyrun.module_for(build_ext(d, lib), axioms=lib.get_axioms()), agg_set)[idx][1]
+                    m = pyrun.module_for(th, axioms=axioms_of(lib))
+                    fac = stacks([th.conc], pyrun.module_for(build_ext(d, lib), axioms=axioms_of(lib)), agg_set)[idx][1]
                     it, bufs = fac()
                     concs = run_on(m, it)
                     res = ('ok', tuple(rm.show(bridge.expand(c)) for c in concs))
